@@ -27,7 +27,7 @@ RULE = ('cases: (a) exhaustive: n in 2..N systems x priority pattern {all distin
         'times. Non-trivial: the system set really changed during a step; distinct by (priorities, actor positions, actions).')
 ASSUMPTIONS = ['whether a system registered mid-timestep first runs in that timestep or the next is left open',
                'the oracle is computed from the script: a system removed before its turn does not perform its own scripted action']
-FLOORS = {'quick': {'str_subclass_ids': 11455, 'falsy_system_objects': 9414, 'action_steps': 2400, 'act_cleanup': 60, 'act_remove_earlier': 90, 'act_remove_later': 90, 'act_add_higher': 120,
+FLOORS = {'quick': {'other_model_stepped_inside_our_timestep': 2713, 'str_subclass_ids': 11455, 'falsy_system_objects': 9414, 'action_steps': 2400, 'act_cleanup': 60, 'act_remove_earlier': 90, 'act_remove_later': 90, 'act_add_higher': 120,
                     'act_add_equal': 60, 'act_add_lower': 120, 'act_replace_earlier': 200, 'act_replace_later': 200, 'act_readd_self': 200,
                     'act_readd_earlier': 200, 'act_compound': 500, 'act_readd_later': 200, 'blocks_multi': 2000, 'blocks_single': 2000, 'removed_via_clean_up': 300, 'big_histories': 20, 'big_history_changes': 1000, 'quiet_steps': 4000, 'two_actor_steps': 1000,
                     'reach:Core.SystemManager.execute_systems': 5000, 'reach:Core.System.clean_up': 60},
@@ -65,6 +65,11 @@ def fixtures():
         def collect(self):
             Scripted.execute(self)
 
+    class Idle(core.System):
+        def execute(self):
+            pass
+
+    Scripted.Idle = Idle
     Scripted.AsCollector = ScriptedCollector
     # falsy-but-valid user systems (an empty job queue has len 0; a switch that is off is False) - they are systems like any other
     Scripted.variants = [Scripted, type('ScriptedSized', (Scripted,), {'__len__': lambda self: 0}),
@@ -86,6 +91,9 @@ class World:
         from vlib import reps
         self.reps = reps
         self.model = self.core.Model(logger=reps.quiet_logger()) if flavour % 4 == 3 else self.core.Model()
+        # an unrelated second model (a sub-model the acting systems advance from inside OUR timestep, before they change our system set)
+        self.other = self.core.Model()
+        self.other.systems.add_system(self.Scripted.Idle('s0', self.other))
         self.log = []          # (timestep, uid)
         self.script = {}
         self.ref = []          # dicts id(uid), sid, prio, seq  (registered now)
@@ -126,6 +134,9 @@ class World:
 
     def perform(self, actor, act, t):
         kind = act[0]
+        if self.flavour % 3 == 1 and kind != 'compound':
+            self.other.execute()            # two models alive at once: stepping the other one is none of our scheduler's business
+            self.ctx.count('other_model_stepped_inside_our_timestep')
         if kind == 'compound':            # several changes made by one system within the same execute()
             for sub in act[1:]:
                 self.perform(actor, sub, t)
